@@ -323,6 +323,7 @@ func Run(c *Case, m Mode) *Hist {
 
 	s := cfg.New()
 	handles := make([]*scheduler.ScheduledJob, J)
+	depSlices := newDepSlices(c)
 	enqueue := func(j int) {
 		jb := jobs[j]
 		switch jb.Pace {
@@ -338,10 +339,7 @@ func Run(c *Case, m Mode) *Hist {
 			}
 			tm.Stop()
 		}
-		deps := make([]*scheduler.ScheduledJob, len(jb.Deps))
-		for i, d := range jb.Deps {
-			deps[i] = handles[d]
-		}
+		deps := depSlices.get(jb.Deps, handles)
 		h.submitted.Add(1)
 		if len(deps) > 0 {
 			h.submittedDeps.Add(1)
@@ -708,4 +706,37 @@ func stableBlockedAll() (string, bool) {
 		}
 	}
 	return sb.String(), true
+}
+
+// depSlices builds the Dependencies slice of each job. With ShareDeps, jobs
+// that list the same dependencies are given the very same slice (as a caller
+// that fans N jobs out over one set of prerequisites would write it): Enqueue
+// must treat the slice as read-only. Sharing is only done when all Enqueues
+// come from one goroutine, so the harness itself never writes a shared slice
+// twice.
+type depSlicesT struct {
+	share bool
+	cache map[string][]*scheduler.ScheduledJob
+}
+
+func newDepSlices(c *Case) *depSlicesT {
+	return &depSlicesT{share: c.ShareDeps && c.ConcEnq <= 1, cache: map[string][]*scheduler.ScheduledJob{}}
+}
+
+func (d *depSlicesT) get(idx []int, handles []*scheduler.ScheduledJob) []*scheduler.ScheduledJob {
+	key := ""
+	if d.share && len(idx) > 0 {
+		key = fmt.Sprint(idx)
+		if s, ok := d.cache[key]; ok {
+			return s
+		}
+	}
+	deps := make([]*scheduler.ScheduledJob, len(idx))
+	for i, x := range idx {
+		deps[i] = handles[x]
+	}
+	if key != "" {
+		d.cache[key] = deps
+	}
+	return deps
 }
